@@ -1066,12 +1066,82 @@ fn gen_ods(rng: &mut Rng, s: &str) -> OdsCase {
         );
         cells.push(CellCase { t: if covered { Some("covered".into()) } else { None }, kids, expect: Some(s.to_string()), label });
     }
+    // office:string-value carries the string; the paragraphs are display text (different, or absent). The
+    // attribute may stand before or after office:value-type, among other attributes, in any quoting style.
+    for k in 0..3 {
+        let tag = if k == 2 && rng.chance(1, 2) { "table:covered-table-cell" } else { "table:table-cell" };
+        let mut attrs: Vec<(String, String)> = vec![("office:value-type".into(), "string".into()), ("office:string-value".into(), s.to_string())];
+        if rng.chance(1, 2) {
+            attrs.push(("table:style-name".into(), "ce1".into()));
+        }
+        if rng.chance(1, 2) {
+            attrs.insert(0, ("calcext:value-type".into(), "string".into()));
+        }
+        // k = 0: string-value first, k = 1: natural order, k = 2: a random permutation and quoting style
+        let code = match k {
+            0 => {
+                let i = attrs.iter().position(|a| a.0 == "office:string-value").unwrap();
+                let a = attrs.remove(i);
+                attrs.insert(0, a);
+                0
+            }
+            1 => 0,
+            _ => (rng.next() as u32) & 0x00FF_FFFF,
+        };
+        let mut kids = vec![X::Start(tag.into(), attrs)];
+        match rng.below(3) {
+            0 => {}
+            1 => {
+                kids.push(st("text:p", &[]));
+                kids.push(tx("display text"));
+                kids.push(en("text:p"));
+            }
+            _ => {
+                kids.push(st("text:p", &[]));
+                kids.extend(para_pieces(rng, "shown  <differently>", 3, Esc::Mixed, 0));
+                kids.push(en("text:p"));
+                kids.push(em("text:p", &[]));
+            }
+        }
+        kids.push(en(tag));
+        cells.push(CellCase { t: Some(format!("raw:{code}")), kids, expect: Some(s.to_string()), label: format!("ods.string_value.{}", ["first", "natural", "permuted"][k]) });
+    }
     OdsCase { cells }
 }
 
 fn ods_cell_xml(c: &CellCase) -> String {
+    if let Some(code) = c.t.as_deref().and_then(|t| t.strip_prefix("raw:")) {
+        // the whole element is in `kids`; the start tag's attributes go through the shared writer's
+        // attribute knobs (order permutation, quote character, white space)
+        let mut o = String::new();
+        if let Some(X::Start(n, a)) = c.kids.first() {
+            o.push('<');
+            o.push_str(n);
+            let esc: Vec<(String, String)> = a.iter().map(|(k, v)| (k.clone(), odsw::escape_attr(v))).collect();
+            odsw::write_attrs(&mut o, &esc, odsw::AttrStyle::from_code(code.parse().unwrap_or(0)));
+            o.push('>');
+        }
+        o.push_str(&xml(&c.kids[1..]));
+        return o;
+    }
     let tag = if c.t.as_deref() == Some("covered") { "table:covered-table-cell" } else { "table:table-cell" };
     format!("<{tag} office:value-type=\"string\">{}</{tag}>", xml(&c.kids))
+}
+
+/// the attributes in the order `odsw::write_attrs` writes them for this style code (same permutation)
+fn permuted_attrs(attrs: &[(String, String)], t: &str) -> Vec<(String, String)> {
+    let code: u32 = t.strip_prefix("raw:").and_then(|c| c.parse().ok()).unwrap_or(0);
+    let st = odsw::AttrStyle::from_code(code);
+    let mut idx: Vec<usize> = (0..attrs.len()).collect();
+    if st.order != 0 {
+        let mut x = st.order as u64;
+        for i in (1..idx.len()).rev() {
+            x = x.wrapping_mul(6364136223846793005).wrapping_add(1442695040888963407);
+            let j = ((x >> 33) % (i as u64 + 1)) as usize;
+            idx.swap(i, j);
+        }
+    }
+    idx.into_iter().map(|i| attrs[i].clone()).collect()
 }
 
 fn ods_bytes(c: &OdsCase) -> Vec<u8> {
@@ -1633,6 +1703,14 @@ fn run_case_inner(case: &Case, drv: &mut Driver, rep: &mut Stats) -> Outcome {
                 .cells
                 .iter()
                 .map(|cell| {
+                    if cell.t.as_deref().map_or(false, |t| t.starts_with("raw:")) {
+                        // the attribute order the file has is the order after the writer's permutation
+                        let mut kids = cell.kids.clone();
+                        if let Some(X::Start(_, a)) = kids.first_mut() {
+                            *a = permuted_attrs(a, cell.t.as_deref().unwrap());
+                        }
+                        return format!("odsval {}", wire(&kids));
+                    }
                     let tag = if cell.t.as_deref() == Some("covered") { "table:covered-table-cell" } else { "table:table-cell" };
                     format!("odscell {} E{}", wire(&cell.kids), hx(tag.as_bytes()))
                 })
@@ -1647,7 +1725,12 @@ fn run_case_inner(case: &Case, drv: &mut Driver, rep: &mut Stats) -> Outcome {
                     let m = match replies[i].strip_prefix("ok ") {
                         Some(r) => {
                             let h = r.split(' ').next().unwrap();
-                            format!("S:{}", if h == "-" { "" } else { h })
+                            let h = h.strip_prefix("str:").unwrap_or(h);
+                            if h == "other" {
+                                "other:-".to_string()
+                            } else {
+                                format!("S:{}", if h == "-" { "" } else { h })
+                            }
                         }
                         None => replies[i].to_string(),
                     };
@@ -1734,7 +1817,11 @@ fn run_case_inner(case: &Case, drv: &mut Driver, rep: &mut Stats) -> Outcome {
 fn sig_of(label: &str, symptom: &str) -> String {
     let parts: Vec<&str> = label.split('.').collect();
     let fmt = parts[0];
-    let mut s = if fmt == "ods" { "ods".to_string() } else { format!("{}.{}", fmt, parts.get(1).unwrap_or(&"")) };
+    let mut s = if fmt == "ods" {
+        if parts.get(1) == Some(&"string_value") { "ods.string_value".to_string() } else { "ods".to_string() }
+    } else {
+        format!("{}.{}", fmt, parts.get(1).unwrap_or(&""))
+    };
     if parts.iter().any(|p| p.starts_with("rich")) {
         s.push_str(".rich");
     }
@@ -1986,6 +2073,64 @@ fn corpus() -> Vec<Case> {
         }));
     }
     // D36 (xls): an empty LABEL / shared / formula string
+    // seeded C19-m9: a long multi-byte text followed by text:s (the space elements count whatever the length)
+    {
+        let cjk: String = "日本語テキスト".chars().cycle().take(25_000).collect();
+        let mk = |space: X, n: usize| {
+            let mut kids = vec![st("text:p", &[]), tx(&cjk), space];
+            if matches!(kids[2], X::Start(..)) {
+                kids.push(en("text:s"));
+            }
+            kids.push(tx("end"));
+            kids.push(en("text:p"));
+            CellCase { t: None, kids, expect: Some(format!("{cjk}{}end", " ".repeat(n))), label: "ods.sc.lit.long_multibyte.p1".into() }
+        };
+        v.push(Case::Ods(OdsCase { cells: vec![mk(em("text:s", &[]), 1)] }));
+        v.push(Case::Ods(OdsCase { cells: vec![mk(st("text:s", &[("text:c", "3")]), 3)] }));
+        let ascii: String = "abcdefghij".chars().cycle().take(70_000).collect();
+        v.push(Case::Ods(OdsCase {
+            cells: vec![CellCase {
+                t: None,
+                kids: vec![st("text:p", &[]), tx(&ascii), em("text:s", &[("text:c", "2")]), tx("z"), en("text:p")],
+                expect: Some(format!("{ascii}  z")),
+                label: "ods.sc.lit.long_ascii.p1".into(),
+            }],
+        }));
+    }
+    // seeded C19-m11: a shared string table dominated by empty strings, the texts at its end
+    for split in [false, true] {
+        let mut sst: Vec<String> = vec![String::new(); 40];
+        sst.push("first text".into());
+        sst.push("é second".into());
+        v.push(Case::Xls(XlsCase {
+            split,
+            seed: 11,
+            sst,
+            cells: vec![
+                BinCell { kind: "isst".into(), isst: 39, units: vec![], expect: "".into(), label: "xls.shared.decoy_empty.many_empty".into() },
+                BinCell { kind: "isst".into(), isst: 40, units: vec![], expect: "first text".into(), label: "xls.shared.item.many_empty".into() },
+                BinCell { kind: "isst".into(), isst: 41, units: vec![], expect: "é second".into(), label: "xls.shared.item.many_empty".into() },
+            ],
+        }));
+    }
+    // seeded C19-m12: office:string-value written before office:value-type, display text differs or is absent
+    {
+        let cell = |attrs: Vec<(&str, &str)>, content: Vec<X>, label: &str| {
+            let mut kids = vec![st("table:table-cell", &attrs)];
+            kids.extend(content);
+            kids.push(en("table:table-cell"));
+            CellCase { t: Some("raw:0".into()), kids, expect: Some("the <value> & more".into()), label: label.into() }
+        };
+        let shown = vec![st("text:p", &[]), tx("display"), en("text:p")];
+        v.push(Case::Ods(OdsCase {
+            cells: vec![
+                cell(vec![("office:string-value", "the <value> & more"), ("office:value-type", "string")], shown.clone(), "ods.string_value.first"),
+                cell(vec![("office:string-value", "the <value> & more"), ("office:value-type", "string")], vec![], "ods.string_value.first"),
+                cell(vec![("office:value-type", "string"), ("office:string-value", "the <value> & more")], shown.clone(), "ods.string_value.natural"),
+                cell(vec![("table:style-name", "ce1"), ("office:string-value", "the <value> & more"), ("calcext:value-type", "string"), ("office:value-type", "string")], shown, "ods.string_value.first"),
+            ],
+        }));
+    }
     // seeded C19-m5: a formula string result whose STRING record follows a SHRFMLA / ARRAY / TABLE record
     v.push(Case::Xls(XlsCase {
         split: false,
@@ -2358,6 +2503,20 @@ fn expand(job: Job) -> Vec<Case> {
                 // LABEL / STRING records hold at most one record of text in the shared writer
                 let cells: Vec<BinCell> = cells.into_iter().filter(|c| c.kind == "isst" || c.units.len() <= 255).collect();
                 let texts: Vec<String> = sst.iter().map(|(_, u, _)| String::from_utf16_lossy(u)).collect();
+                // sometimes the table is dominated by empty strings (3 bytes each), the texts at its end
+                let (texts, cells) = if r.chance(1, 6) {
+                    let k = 30 + 2 * texts.iter().map(|t| t.len()).sum::<usize>().min(400) + r.below(40) as usize;
+                    let mut t2: Vec<String> = vec![String::new(); k];
+                    t2.extend(texts);
+                    let mut c2: Vec<BinCell> = cells
+                        .into_iter()
+                        .map(|c| if c.kind == "isst" { BinCell { isst: c.isst + k as u32, label: format!("{}.many_empty", c.label), ..c } } else { c })
+                        .collect();
+                    c2.push(BinCell { kind: "isst".into(), isst: k as u32 - 1, units: vec![], expect: String::new(), label: "xls.shared.decoy_empty.many_empty".into() });
+                    (t2, c2)
+                } else {
+                    (texts, cells)
+                };
                 let seed = r.next();
                 // the same table once more with CONTINUE cuts inside the strings and per-segment packing
                 let scells: Vec<BinCell> = cells
